@@ -712,6 +712,31 @@ def replay(plugin, pid, path):
             print("VIOLATION property=%s replay=%s no-failing-input-found" % (pid, path))
             return 1
         return 0
+    # failures that do not come from the line protocol of the sanitizer build
+    if hasattr(plugin, "replay_case"):
+        res = plugin.replay_case(r["lines"], {"exe": exe, "libdir": libdir})
+        if res is not None:
+            failed, text = res
+            print(text)
+            if failed:
+                print("VIOLATION property=%s replay=%s" % (pid, path))
+                return 1
+            print("replay passes on the current tree")
+            return 0
+    if str(r.get("theorem_or_correspondence", "")).startswith("production-build pass"):
+        # the divergence is between the production build and the verification build: run both
+        plib, _ = core.build_lib("prod")
+        pexe = core.build_harness(plugin.DRIVER, plib, "prod", getattr(plugin, "HARNESS_EXTRA", ()), getattr(plugin, "HARNESS_FLAGS", ()))
+        lines = ["case 0"] + list(r["lines"])
+        a, ca, _ = core.run_impl(exe, lines, timeout=getattr(plugin, "HARNESS_TIMEOUT", 600))
+        b, cb, _ = core.run_impl(pexe, lines, timeout=getattr(plugin, "HARNESS_TIMEOUT", 600))
+        print("verification build: " + " | ".join(a[:20]))
+        print("production build  : " + " | ".join(b[:20]) + (" crash: " + cb if cb else ""))
+        if a != b or cb:
+            print("VIOLATION property=%s replay=%s" % (pid, path))
+            return 1
+        print("replay passes on the current tree")
+        return 0
     g = fails_single(plugin, exe, r["lines"])
     if g is None:
         print("replay passes on the current tree")
